@@ -268,6 +268,14 @@ func genAgg(seed uint64, tier string, emphasis int) *plan.Plan {
 			pl.Ops = append(pl.Ops, plan.Op{K: "adv", A: int64(d)})
 		case x < wRec+wAdv+wScan:
 			op := plan.Op{K: "scan", B: int64(r.IntN(2))}
+			if r.IntN(4) == 0 {
+				// exporting takes time: flows can become due while the scan is under way
+				m := A
+				if I < m {
+					m = I
+				}
+				op.D = int64([]time.Duration{time.Millisecond, m / 3, m / 2, m}[r.IntN(4)])
+			}
 			fail := map[int]bool{}
 			if r.IntN(4) == 0 {
 				idx := r.IntN(3)
